@@ -12,11 +12,11 @@ P = {
          "Generated histories of all public operations with arbitrary scripted callback behaviour; every lifecycle callback drives a pairing automaton and every observation point (each callback, each API boundary) must agree with it."),
  "C02": ("guard-round model: last passing round = outcome; no effect at request time (rapidcheck + libFuzzer)", "4.C02", "Request-heavy histories; independent tagging of every request; outcome, lifecycle callbacks and first evaluated request compared with the tagged model."),
  "C03": ("guard decision chains vs 'last passing round' justification of every enter (rapidcheck + libFuzzer)", "4.C03", "Generated pass/cancel/redirect/cancel+redirect chains; every enter()/reenter() must be justified by the last passing round; replay/load windows guard-free."),
- "C04": ("ping-pong guards, L in {1,2,3,4,5,7}; round count and left-over request (rapidcheck + libFuzzer)", "4.C04", "Redirect-heavy guards on machines with six different substitution limits; rounds per call <= L, callback budget turns hangs into violations, left-over requests re-guarded."),
+ "C04": ("ping-pong guards, L in {1,2,3,4,5,6,7,12,255}; round count, outcome and left-over request (rapidcheck + libFuzzer) + all 120 orders of the configuration aliases", "4.C04", "Redirect-heavy guards (also 'redirect k times, then veto') on machines with nine different substitution limits; rounds per call <= L, the outcome is chosen among the requests that passed, callback budget turns hangs into violations, left-over requests re-guarded; a three-state machine is built for every order of the five configuration aliases."),
  "C05": ("fixed delivery sequence, event address identity, query purity over generated cycles (rapidcheck + libFuzzer)", "4.C05", "Phase callbacks that request / report at every position; the delivery blocks of each update/react/query must equal the stated sequence."),
  "C06": ("control view == machine view at every callback, all ids, 4 context kinds (rapidcheck + libFuzzer) + API probe", "4.C06", "At each of millions of callbacks stateId, context identity, isActive(i) for every i, request, pending/current transition and plan are compared with the machine's own answers and the tagged request model."),
- "C07": ("tagged payload bytes: null iff none, memcmp-equal, aligned; 8 payload types (rapidcheck + sanitizer replay + libFuzzer)", "4.C07", "Payload bytes are a function of a generated seed; wherever the library shows a transition the bytes, presence and alignment are checked against the tagged request."),
- "C08": ("plan firing rules as predicates over (P_pre, F, P_post) incl. sufficiency; strict report tracking (rapidcheck + libFuzzer)", "4.C08", "Generated plans x reports x vetoes x edits; fired set recovered from observed plan snapshots; necessity and sufficiency rules of the statement checked per cycle."),
+ "C07": ("tagged payload bytes: null iff none, memcmp-equal, aligned; 11 payload types up to 320 bytes / 64-byte alignment, payloads passed by reference out of the library's own transitions (rapidcheck + sanitizer replay + libFuzzer); one open known finding (F14)", "4.C07", "Payload bytes are a function of a generated seed; wherever the library shows a transition the bytes, presence and alignment are checked against the tagged request."),
+ "C08": ("plan firing rules as predicates over (P_pre, F, P_post) incl. sufficiency, also against the edit-history model of the plan; strict report tracking (rapidcheck + libFuzzer) + scripted scenarios per origin id on machines of up to 255 states", "4.C08", "Generated plans x reports x vetoes x edits; fired set recovered from observed plan snapshots; necessity and sufficiency rules of the statement checked per cycle."),
  "C09": ("outcome => warrant, never without a task, sufficiency for failure; every memory fill (rapidcheck x 3 fills + UBSan replay + libFuzzer)", "4.C09", "Same generator as C08 plus the fill byte of the storage; outcome callbacks must be warranted by tracked reports and never depend on the fill pattern."),
  "C10": ("std::vector model of the plan through the Plan API + slot-map model of TaskListT for every capacity 1..255 (rapidcheck) + link probe", "4.C10", "Model-based: every append/remove/clear/firing/outcome is mirrored in a vector and compared at every observation; TaskListT exercised directly for all capacities."),
  "C11": ("history == survivor; hostile replica driven only by replay stays in lock-step (rapidcheck + libFuzzer)", "4.C11", "Authority histories with multi-round vetoes; a second instance with cancelling/redirecting guards is fed previousTransition().destination after every step."),
@@ -26,7 +26,7 @@ P = {
  "C15": ("exactly-once + stated order per delivery for k = 0..3 injections (rapidcheck + libFuzzer)", "4.C15", "Every delivery block in every generated history is checked for exactly-once and for the stated forward / reverse order."),
  "C16": ("record<->delivery/action bijection within logging builds; digest equality across logger attach states (rapidcheck, FS_ALL and FS_VERBOSE)", "4.C16", "Logger events are interleaved into the trace; each action must be followed by its record, each record by its delivery; the same case is re-run with the logger never / always attached and digests compared."),
  "C17": ("digest equality across 3 memory fills; fork-and-compare copy vs original (rapidcheck + sanitizer replay + libFuzzer)", "4.C17", "Metamorphic: fill pattern must not matter; a copy taken at a generated point must answer the remaining history exactly like the original and leave it untouched."),
- "C18": ("ASan+UBSan over generated cases (zoo and containers) and libFuzzer campaigns, allocation counter armed during FFSM2 calls, alignment and canary oracles, fill differentials; valgrind in thorough", "4.C18", "All generated cases also run in the sanitized build; any report, allocation, misalignment or fill-dependence is a violation."),
+ "C18": ("ASan+UBSan over generated cases (zoo, containers, sizes) and libFuzzer campaigns, allocation counter armed during FFSM2 calls, alignment and canary oracles, byte- and word-pattern fill differentials, valgrind memcheck on uninitialised heap placement, g++ vs clang build differential of trace digests", "4.C18", "All generated cases also run in the sanitized build; any report, allocation, misalignment, fill-dependence, memcheck error or compiler-dependent behaviour is a violation."),
  "C19": ("enumerated switch matrix (compile / build+run) + feature-neutral generated scenarios compared across runners + join.py byte comparison", "4.C19", "2^8 switches x 4 standards x 2 compilers x 2 headers enumerated (thorough: all 4112 rows); generated core-API scenarios must produce identical digests on runners built with different switch subsets."),
  "C20": ("std::vector<bool>/std::vector models for generated op sequences, every capacity 1..255 (rapidcheck, plain + sanitized) + iteration probe", "4.C20", "Model-based comparison after every operation; capacities enumerated, sequences generated and shrunk."),
 }
@@ -60,8 +60,9 @@ m = {
  },
  "engines": [
   {"name": "zoo harness (scripted world, trace, predicates)", "path": "harness/", "serves_properties": ["C01","C02","C03","C04","C05","C06","C07","C08","C09","C10","C11","C12","C15","C16","C17","C18","C19"], "kind_free_text": "rapidcheck stateful generation + libFuzzer byte-level fuzzing with structure-aware decoding; ASan/UBSan builds"},
-  {"name": "container harness", "path": "harness/containers/", "serves_properties": ["C10","C13","C20"], "kind_free_text": "rapidcheck model-based testing for every capacity 1..255"},
-  {"name": "sizes harness", "path": "harness/sizes/", "serves_properties": ["C12","C14"], "kind_free_text": "exhaustive (N,k) sweeps with seed-generated walks"},
+  {"name": "container harness", "path": "harness/containers/", "serves_properties": ["C10","C13","C18","C20"], "kind_free_text": "rapidcheck model-based testing for every capacity 1..255 (bit arrays also 256), plain and sanitized builds"},
+  {"name": "sizes harness", "path": "harness/sizes/", "serves_properties": ["C08","C12","C14","C18"], "kind_free_text": "exhaustive (N,k) sweeps with seed-generated walks, save/load pairs, plan scenarios per origin id; manual and automatic activation; plain and sanitized builds"},
+  {"name": "configuration-order harness", "path": "harness/cfgperm/", "serves_properties": ["C01","C04","C10"], "kind_free_text": "exhaustive enumeration of the 120 orders of the five configuration aliases, behavioural oracle per order"},
   {"name": "feature matrix", "path": "harness/matrix/", "serves_properties": ["C19"], "kind_free_text": "enumerated compile matrix + metamorphic runner comparison"}
  ],
  "checks": checks,
